@@ -156,7 +156,7 @@ def oracle_factory(ctx):
 
 
 def shard(ctx):
-    n = ctx.scale(8000, 60000)
+    n = ctx.scale(16000, 80000)
     ctx.run_hypothesis(gen.problems(PROFILE), oracle_factory(ctx), n)
 
 
